@@ -46,7 +46,7 @@ func c17lists(prefix string, maxK int) ([]peer.AddrInfo, [][]byte) {
 
 type c17res struct {
 	ctxID, md []byte
-	pid      peer.ID
+	pid       peer.ID
 }
 
 // specification (DESIGN.md B.7), defined for records whose lists have equal lengths
